@@ -31,9 +31,12 @@ fn hex(s: &str) -> String {
     o
 }
 
+static NAN_SIGNED: std::sync::atomic::AtomicBool = std::sync::atomic::AtomicBool::new(false);
+
 fn fmt_f(x: f64) -> String {
     if x.is_nan() {
-        return "nan".into();
+        // the sign of a NaN is printed for inputs only (parent process); results print `nan`
+        return if x.is_sign_negative() && NAN_SIGNED.load(std::sync::atomic::Ordering::Relaxed) { "-nan".into() } else { "nan".into() };
     }
     if x.is_infinite() {
         return if x > 0.0 { "inf".into() } else { "-inf".into() };
@@ -368,7 +371,7 @@ fn gen_c08(rng: &mut Rng, thorough: bool) -> Cases {
 
 // --- random expressions (C10, C11) -------------------------------------------------------------
 
-fn str_pool() -> Vec<&'static str> { vec!["", "a", "abc", "hello world", "12", "-7", "+5", "9223372036854775808", "h\u{e9}llo", "x y"] }
+fn str_pool() -> Vec<&'static str> { vec!["", "a", "abc", "hello world", "12", "-7", "+5", "9223372036854775808", "h\u{e9}llo", "x y", "  Ab c\t", "\u{a0}x\u{2003}", "aXbXXc", "X", "aaa", "aa", "l", "o w", " ", "ABC def"] }
 
 fn rand_scalar(rng: &mut Rng) -> Value {
     match rng.below(9) {
@@ -452,12 +455,13 @@ const BUILTINS: &[(&str, usize)] = &[
     ("starts_with", 2), ("ends_with", 2), ("substring", 2), ("substring", 3), ("type_of", 1), ("is_null", 1),
     ("is_int", 1), ("is_float", 1), ("is_string", 1), ("is_bool", 1), ("is_array", 1), ("is_map", 1), ("nosuchfn", 1),
     ("log", 1), ("log10", 1), ("exp", 1), ("sin", 1), ("cos", 1), ("tan", 1),
+    ("sort", 1), ("to_string", 1), ("trim", 1), ("lower", 1), ("upper", 1), ("lowercase", 1), ("uppercase", 1),
+    ("split", 2), ("join", 2), ("replace", 3), ("sort", 1), ("split", 2), ("replace", 3), ("join", 2), ("trim", 1),
 ];
 
 /// built-ins outside the Lean model: exercised for panics only
 const UNMODELLED: &[(&str, usize)] = &[
-    ("sort", 1), ("to_string", 1),
-    ("trim", 1), ("lower", 1), ("upper", 1), ("split", 2), ("join", 2), ("replace", 3),
+    ("no_such_builtin", 2), // range is excluded by the property (sizes); everything else is modelled
 ];
 
 struct Gen { arith_bias: bool, allow_to_float_str: bool }
@@ -556,6 +560,42 @@ fn targeted(rng: &mut Rng) -> Vec<Expr> {
         out.push(bin(BinOp::Div, Expr::Float(f), id("x")));
         out.push(bin(BinOp::Pow, Expr::Float(f), Expr::Int(rng.range(-3, 4))));
     }
+    // string built-ins, formatting, sorting on typed arguments
+    let seps = ["", " ", "X", "aa", "l", "o w", "a", "XX"];
+    for s in str_pool() {
+        let se = Expr::Str(s.to_string());
+        for f in ["trim", "lower", "upper", "lowercase", "uppercase", "reverse", "len", "to_string", "to_int"] { out.push(call(f, vec![se.clone()])); }
+        for sep in seps {
+            out.push(call("split", vec![se.clone(), Expr::Str(sep.to_string())]));
+            out.push(call("replace", vec![se.clone(), Expr::Str(sep.to_string()), Expr::Str("-".into())]));
+            out.push(call("replace", vec![se.clone(), Expr::Str(sep.to_string()), Expr::Str(String::new())]));
+            out.push(call("join", vec![call("split", vec![se.clone(), Expr::Str(sep.to_string())]), Expr::Str("|".into())]));
+            out.push(bin(BinOp::Lt, se.clone(), Expr::Str(sep.to_string())));
+            out.push(bin(BinOp::Ge, se.clone(), Expr::Str(sep.to_string())));
+        }
+    }
+    for f in float_table(true) { out.push(call("to_string", vec![Expr::Float(f)])); out.push(call("to_string", vec![Expr::Float(f / 4.0)])); }
+    for a in ints { out.push(call("to_string", vec![Expr::Int(a)])); }
+    for d in [0u64, 999, 1000, 1_500_000, 999_999_999, 2_000_000_000, 59_000_000_000, 60_000_000_000, 3_599_000_000_000, 3_600_000_000_000, 86_400_000_000_000, 259_200_000_000_001, u64::MAX] {
+        out.push(call("to_string", vec![Expr::Duration(d)]));
+    }
+    out.push(call("to_string", vec![Expr::Array(vec![Expr::Int(1), Expr::Str("a b".into()), Expr::Null, Expr::Bool(true), Expr::Array(vec![]), Expr::Float(2.5)])]));
+    out.push(call("to_string", vec![Expr::Map(vec![("k".into(), Expr::Int(1)), ("x".into(), Expr::Array(vec![Expr::Float(-0.0)]))])]));
+    out.push(call("to_string", vec![id("a")]));
+    out.push(call("to_string", vec![id("m")]));
+    out.push(call("join", vec![id("a"), Expr::Str(", ".into())]));
+    out.push(call("join", vec![Expr::Array(vec![Expr::Str("a".into()), Expr::Int(3), Expr::Float(0.5), Expr::Null]), Expr::Str(String::new())]));
+    let neg_nan = f64::from_bits(0xFFF8_0000_0000_0000);
+    let sort_items = vec![Expr::Float(0.0), Expr::Float(-0.0), Expr::Float(f64::NAN), Expr::Float(neg_nan), Expr::Float(f64::INFINITY), Expr::Float(f64::NEG_INFINITY),
+        Expr::Float(1.5), Expr::Float(-1.5), Expr::Int(3), Expr::Str("b".into()), Expr::Int(-3), Expr::Null, Expr::Str("B".into()), Expr::Bool(false), Expr::Float(0.0), Expr::Int(3), Expr::Str("".into())];
+    for k in 0..sort_items.len() {
+        let mut v = sort_items.clone();
+        v.rotate_left(k);
+        out.push(call("sort", vec![Expr::Array(v.clone())]));
+        v.truncate(5);
+        out.push(call("sort", vec![Expr::Array(v)]));
+    }
+    out.push(call("sort", vec![Expr::Array(vec![bin(BinOp::Div, Expr::Float(0.0), id("y")), Expr::Float(1.0), bin(BinOp::Sub, id("y"), id("y")), Expr::Float(f64::NAN), Expr::Float(-1.0)])]));
     out.push(Expr::Unary { op: UnaryOp::Neg, expr: bx(id("x")) });
     out.push(call("abs", vec![id("x")]));
     out.push(bin(BinOp::Add, id("x"), Expr::Int(1)));
@@ -609,7 +649,7 @@ fn gen_c11(rng: &mut Rng, thorough: bool) -> Cases {
         let n = 5 + 7 * k;
         let items: Vec<Value> = (0..n).map(|_| match rng.below(4) { 0 => Value::Int(rng.range(-50, 50)), 1 => Value::Float(if rng.chance(1, 4) { f64::NAN } else { rng.range(-50, 50) as f64 / 2.0 }), 2 => Value::Str((*rng.pick(&str_pool())).into()), _ => Value::Null }).collect();
         envs.push(EnvSpec { etype: "E".into(), fields: vec![("a".into(), Value::array(items))], binds: vec![] });
-        cases.push(Case { env: envs.len() - 1, kind: Kind::Probe { path: "e", e: call("sort", vec![id("a")]) } });
+        cases.push(Case { env: envs.len() - 1, kind: Kind::Ev { path: "e", e: call("sort", vec![id("a")]) } });
     }
     // random trees over the modelled fragment
     let g = Gen { arith_bias: false, allow_to_float_str: false };
@@ -909,6 +949,7 @@ fn count_calls(ctx: &mut Ctx, e: &Expr) {
 
 pub fn run(ctx: &mut Ctx, name: &str) {
     if name == "expr-sub" { child_main(ctx); return; }
+    NAN_SIGNED.store(true, std::sync::atomic::Ordering::Relaxed);
     let cs = gen_cases(name, ctx.seed, ctx.thorough);
     let results = run_children(ctx, name, cs.cases.len());
     let mut cur_env = usize::MAX;
